@@ -86,3 +86,7 @@ V('C16', 'unsuppress-moved-to-connect-site', F, P + 'Pool._acquire',
   '        block = self._get_block(dbname)\n        block.suppressed = False\n', '        block = self._get_block(dbname)\n', 'C16.R7', 'unsuppressed-before-wait')
 V('C16', 'neg-tick-guard-split', F, P + 'Pool._maybe_schedule_tick',
   '        if not self._nacquires or self._htick is not None:\n            return\n', '        if not self._nacquires:\n            return\n        if self._htick is not None:\n            return\n', None)
+V('C16', 'revert-fix-requeue', F, P + 'Pool._maybe_free_into_starving_blocks',
+  '            self._new_blocks_waitlist[from_block] = True\n', '            pass\n', 'C16.R8', 'transfer-of-released')
+V('C16', 'requeue-only-without-waiters', F, P + 'Pool._maybe_free_into_starving_blocks',
+  '        if not from_block.count_conns() and from_block.count_waiters():\n', '        if not from_block.count_conns() and not from_block.count_waiters():\n', 'C16.R8', 'transfer-of-released')
